@@ -100,6 +100,20 @@ func init() {
 			}
 			fmt.Printf("Definition %s : list (N * list N * Z) := [\n  %s ].\n", f.name, strings.Join(rows, ";\n  "))
 		}
+		// further families pre.b.suf: string contents, comment starts and bodies, qualified names, signs, fractions, #include
+		more := []struct{ pre, suf string }{{"\"", "\" "}, {"/", " x "}, {"/*", "*/ x "}, {"/*a*", "/ x "}, {"//", "\nx "}, {"a:", " "}, {"a::", " "}, {"a::b", " "},
+			{"-", " "}, {"1.", " "}, {"0", "1 "}, {"#include", " "}, {"#", "nclude "}, {"x", "y "}, {"\n", "\nq "}}
+		var fams2 []string
+		for _, f := range more {
+			var rows []string
+			for b := 0; b < 256; b++ {
+				data := append(append([]byte(f.pre), byte(b)), []byte(f.suf)...)
+				c, s, v := c16LexProbe(data)
+				rows = append(rows, fmt.Sprintf("(%d, %s, (%d)%%Z)", c, c16CoqBytes(s), v))
+			}
+			fams2 = append(fams2, fmt.Sprintf("(%s, %s, [\n  %s ])", c16CoqBytes(f.pre), c16CoqBytes(f.suf), strings.Join(rows, ";\n  ")))
+		}
+		fmt.Printf("Definition c16_probe_more : list (list N * list N * list (N * list N * Z)) := [\n%s ].\n", strings.Join(fams2, ";\n"))
 		// integer literals: the largest / smallest decimal literal the lexer accepts (binary search between 0 and 2^80)
 		search := func(neg bool) *big.Int {
 			lo, hi := big.NewInt(0), new(big.Int).Lsh(big.NewInt(1), 80) // lo accepted, hi rejected
